@@ -438,7 +438,7 @@ func ruleFuKeyframeOnStart(c *Ctx) {
 		calls := 0
 		instrs(fn, func(ins ssa.Instruction) {
 			cc := callCommon(ins)
-			if cc == nil || cc.StaticCallee() == nil || cc.StaticCallee().Name() != "nalType" {
+			if cc == nil || cc.StaticCallee() == nil || baseFuncName(cc.StaticCallee()) != "nalType" {
 				return
 			}
 			inFu := false
@@ -494,7 +494,7 @@ func ruleIdleHlsLiveField(c *Ctx) {
 		if cc := callCommon(ins); cc != nil && cc.IsInvoke() && cc.Method.Name() == "LastAccessTime" {
 			recv = cc.Value
 		}
-		if cc := callCommon(ins); cc != nil && cc.StaticCallee() != nil && cc.StaticCallee().Name() == "LastAccessTime" && len(cc.Args) > 0 {
+		if cc := callCommon(ins); cc != nil && cc.StaticCallee() != nil && baseFuncName(cc.StaticCallee()) == "LastAccessTime" && len(cc.Args) > 0 {
 			recv = cc.Args[0]
 		}
 	})
@@ -727,7 +727,7 @@ func ruleAuHeaderBits(c *Ctx) {
 			return
 		}
 		f, _, okf := fieldLoad(stripConv(shr.Y))
-		if !okf || f.Name() != "indexLength" {
+		if !okf || theProgram.baseFieldName(f) != "indexLength" {
 			return
 		}
 		n++
@@ -985,7 +985,7 @@ func ruleForcedCutFactor(c *Ctx) {
 		dep := false
 		for _, side := range []ssa.Value{mul.X, mul.Y} {
 			walkDeps(side, func(x ssa.Value) bool {
-				if f, _, ok := fieldLoad(x); ok && f.Name() == "hlsFragment" {
+				if f, _, ok := fieldLoad(x); ok && theProgram.baseFieldName(f) == "hlsFragment" {
 					dep = true
 				}
 				return true
